@@ -63,6 +63,7 @@
       and every handler access.
       → ok <vals> {' | ' <vals>}                 what call i observes in the world run under <impl>
 
+    place.obs <request>          → ok obs=<obs>           what the handlers of the request alone read
     place.resolve <ph> <reqId>   → ok <val> | err         `GetIdOrPlaceholder` (0 = "")
 -/
 import Driver.Common
@@ -302,6 +303,10 @@ def handleBatch (cmd arg : String) : Option String :=
     match (ch.splitOn ",").mapM parseStage, parseRequest rest with
     | some chain, some (srv, req) => mwRun chain srv req
     | _, _ => "bad-op"
+  | "place.obs" => some <|
+    match parseRequest arg with
+    | some (srv, req) => "ok obs=" ++ renderObs (execFull srv req).obs
+    | none => "bad-op"
   | "place.run" => some <|
     let (mode, rest) := splitCmd arg
     match (rest.splitOn " | ").mapM parseRequest with
